@@ -193,7 +193,18 @@ class ReconfDomain(Domain):
             return [("ok", NONE, state)]
         if name in ("old_clients.values", "old_clients.items", "old_clients.keys") or (isinstance(node.func, ast.Attribute) and node.func.attr in ("values", "items", "keys") and isinstance(node.func.value, ast.Name) and state.get(node.func.value.id, None) == Opaque("snapshot")):
             return [("ok", Opaque("snapshot-" + node.func.attr), state)]
+        if name.startswith("self._") and name.count(".") == 1 and self.prog is not None and self.fn is not None and self.fn.cls is not None:
+            # a private helper of the class (e.g. the reset of the old configuration extracted): interpreted in line,
+            # the facts it establishes are the caller's
+            m = self.prog.method(self.fn.cls, name[5:], required=False)
+            if m is not None and m is not self.fn and getattr(m, "cls", None) is not None and m.module is self.fn.module:
+                res = self.inline(node, m, args, kwargs, state)
+                if res is not None:
+                    return res
         return [("ok", TOP, state)]
+
+    def is_global_key(self, k):
+        return (isinstance(k, str) and k.startswith("#")) or super().is_global_key(k)
 
     def for_next(self, node, itval, state):
         key = ("visited", node.lineno)
@@ -527,6 +538,12 @@ def run(chk):
             n_rm += 1
             if f.qualname == rn.qualname and isinstance(n, ast.Call) and n.func.attr == "clear":
                 continue  # the snapshot/close of reconfigure_nodes is checked above
+            if isinstance(n, ast.Call) and n.func.attr == "clear" and f.cls is not None and f.name.startswith("_") and not f.name.startswith("__") and prog.method(rn.cls, f.name, required=False) is f:
+                # the reset extracted into a private helper: if reconfigure_nodes is its only caller, it was interpreted
+                # in line above (snapshot before, close after) and is not a removal site of its own
+                sites = [(g, c) for g in prog.all_functions() for c in walk_no_nested(g.node) if isinstance(c, ast.Call) and isinstance(c.func, ast.Attribute) and c.func.attr == f.name]
+                if sites and all(g.qualname == rn.qualname and is_self_attr(c.func) for g, c in sites):
+                    continue
             closes = False
             par = getattr(n, "_parent", None)
             if isinstance(par, ast.Assign) and isinstance(par.targets[0], ast.Name):
